@@ -228,7 +228,19 @@ int main(int argc, char** argv) {
             o << "r=" << r;
             if (!d) o << " nodata";
             else o << " prot=" << int(d->wep()) << " inner=" << show_inner(d->inner_pdu());
-            if (w[0] == "wpa") o << hs << " ev=" << show_events(*st) << " nk=" << st->wpa.get_keys().size() << " lk=" << show_learned(*st);
+            if (w[0] == "wpa") {
+                o << hs << " ev=" << show_events(*st) << " nk=" << st->wpa.get_keys().size() << " lk=" << show_learned(*st);
+                // what the parsers made of the frame: the RSNEAPOL (key length / serialization) or the beacon (BSSID / SSID)
+                if (const RSNEAPOL* e = pdu->find_pdu<RSNEAPOL>()) {
+                    PDU::serialization_type ser = const_cast<RSNEAPOL*>(e)->serialize();
+                    o << " e=" << e->key().size() << "/" << ser.size() << "/" << fnv(ser.data(), ser.size());
+                }
+                if (const Dot11Beacon* b = pdu->find_pdu<Dot11Beacon>()) {
+                    o << " b=" << addr_hex(b->addr3()) << "/";
+                    try { std::string s = b->ssid(); o << "s" << to_hex((const uint8_t*)s.data(), s.size()); }
+                    catch (const option_not_found&) { o << "none"; }
+                }
+            }
             return o.str();
         }
         if (w[0] == "keys") return "keys=" + show_keys(st->wpa);
